@@ -185,27 +185,28 @@ Lemma inv_set_token s : inv s -> masters s = 0%nat -> nparse s = 0%nat -> inv (s
 Proof.
   intros [Ic Ip Ir Is Iu If Ij Il Ie Im Id Ib Iq] M0 N0. unfold masters, all_jobs, nparse in *.
   constructor; unfold all_jobs, nparse; nrm; auto.
-  - eapply Forall_impl; [|exact Ij]. intros. eapply job_ok_ext; [| |eassumption]; nrm; auto.
-  - simpl. lia.
+  all: try (simpl; lia).
+  all: try (intros; split; auto; apply Id; auto).
 Qed.
 
-Lemma retr1_master cfg j rv cur s2 st' :
+Lemma retr1_master cfg j lk rv cur s2 st' :
+  r_link j = lk ->
   c_requeue_retr_checks_head cfg = true -> jfacts j s2 -> jm (x_unords s2) j = true -> x_parsing_done s2 = false ->
   dbs_ok cur = true -> d_bit (r_cur j) <= d_bit cur -> d_off (r_cur j) <= d_off cur ->
   (rv = MORE -> dbs_norm cur = true) ->
   (let st := advance cfg cur s2 in
    if rv =? MORE then
      if c_requeue_retr_checks_head cfg && (d_off cur <? x_head_offs st)
-     then Some (give_unit (if c_stale_drops_link cfg then set_unords (drop_link (r_link j) (x_unords st)) st else st))
-     else Some (set_retr_q (mkrjob (r_base j) cur (r_link j) :: x_retr_q st) st)
+     then Some (give_unit (if c_stale_drops_link cfg then set_unords (drop_link lk (x_unords st)) st else st))
+     else Some (set_retr_q (mkrjob (r_base j) cur lk :: x_retr_q st) st)
    else Some (add_run (CRetr2 (mkejob (r_base j) rv (d_off cur)))
-                (match r_link j with
+                (match lk with
                  | Some id => set_unords (del_unord id (x_unords (set_parse_token true st))) (set_parse_token true st)
                  | None => set_parse_token true st
                  end))) = Some st' ->
   inv st'.
 Proof.
-  intros CR (I2 & J2 & L2 & B2 & M2) JM PD Hok Hbit Hoff Hn H. rewrite JM in B2. simpl in B2.
+  intros ELK CR (I2 & J2 & L2 & B2 & M2) JM PD Hok Hbit Hoff Hn H. subst lk. rewrite JM in B2. simpl in B2.
   assert (M0 : masters s2 = 0%nat) by lia. assert (N0 : nparse s2 = 0%nat) by lia.
   assert (T0 : x_parse_token s2 = false) by (destruct (x_parse_token s2); simpl in B2; auto; lia).
   specialize (M2 JM).
@@ -215,6 +216,7 @@ Proof.
   assert (RU : x_running st = x_running s2) by (subst st; nrm; auto).
   assert (TK : x_parse_token st = false) by (subst st; nrm; auto).
   assert (NP : nparse st = 0%nat) by (unfold nparse in *; rewrite RU; auto).
+  clearbody st.
   destruct (rv =? MORE) eqn:RV.
   - rewrite CR in H. replace (d_off cur <? x_head_offs st) with false in H by lia. cbn [andb] in H.
     inversion H; subst st'. clear H. apply N.eqb_eq in RV. specialize (Hn RV).
@@ -226,7 +228,8 @@ Proof.
       intro C. exfalso.
       (* the job is master-like: the only unord block with this identity is complete *)
       unfold jm in JM. rewrite E in JM. apply existsb_exists in JM. destruct JM as (u1 & H1 & E1). bool_hyps.
-      assert (u1 = u0) by (apply (nodup_id_unique (x_unords s2)); auto; [apply I2|lia]). subst u1.
+      match goal with K : (u_id u1 =? id) = true |- _ => apply N.eqb_eq in K; rename K into K1 end.
+      assert (u1 = u0) by (apply (nodup_id_unique (x_unords s2)); [apply I2|exact H1|exact H0|congruence]). subst u1.
       match goal with K : u_complete u0 = true |- _ => specialize (S6 K) end. congruence.
     + simpl. intros id E. specialize (L2 id E). apply filter_len_zero in L2. apply filter_len_zero.
       unfold all_jobs in *. rewrite RU. apply Forall_app in L2. destruct L2 as [A B]. apply Forall_app. split; auto.
@@ -239,6 +242,64 @@ Proof.
     + unfold del_unord. intros u Hu. apply filter_In in Hu. exists u. split; [tauto|apply stems_refl].
     + unfold del_unord. apply nodup_map_filter. apply I4.
 Qed.
+Lemma retr1_spec cfg j id rv cur s2 st' :
+  c_requeue_retr_checks_head cfg = true -> jfacts j s2 -> r_link j = Some id ->
+  dbs_ok cur = true -> d_bit (r_cur j) <= d_bit cur -> (rv = MORE -> dbs_norm cur = true) ->
+  (let st := set_unords (upd_unord id (u_set_end cur) (x_unords s2)) s2 in
+   if rv =? MORE then
+     if c_requeue_retr_checks_head cfg && (d_off cur <? x_head_offs st)
+     then Some (give_unit (if c_stale_drops_link cfg then set_unords (drop_link (Some id) (x_unords st)) st else st))
+     else Some (set_retr_q (mkrjob (r_base j) cur (Some id) :: x_retr_q st) st)
+   else Some (add_run (CRetr2 (mkejob (r_base j) rv (d_off cur)))
+                (set_unords (upd_unord id (fun u => u_set_complete (u_set_end cur u)) (x_unords st)) st))) = Some st' ->
+  inv st'.
+Proof.
+  intros CR (I2 & J2 & L2 & B2 & M2) EL Hok Hbit Hn H. rewrite <- EL in H.
+  pose proof (L2 id EL) as Z2. destruct J2 as (J1 & J2' & J3 & J4 & J5).
+  assert (UO : forall u, In u (x_unords s2) -> u_id u = id -> unord_ok u /\ u_base u = r_base j).
+  { intros u Hu Hid. split; [destruct I2 as [_ _ _ _ Iu _ _ _ _ _ _ _ _]; rewrite Forall_forall in Iu; auto|].
+    apply (J5 id u EL Hu Hid). }
+  destruct (inv_upd_spec id (u_set_end cur) s2 I2 Z2) as (I3 & M3).
+  { intro u. split; reflexivity. }
+  { intros u Hu Hid. destruct (UO u Hu Hid) as ((O1 & O2 & O3) & B). unfold unord_ok, u_set_end; simpl.
+    split; [intro Q; destruct (O1 Q) as (_ & _ & L); repeat split; auto; rewrite B; lia|split; auto]. }
+  cbv zeta in H. set (st := set_unords (upd_unord id (u_set_end cur) (x_unords s2)) s2) in *.
+  assert (AJ : all_jobs st = all_jobs s2) by (subst st; unfold all_jobs; nrm; auto).
+  assert (Z3 : length (filter (links id) (all_jobs st)) = 0%nat) by (rewrite AJ; auto).
+  assert (JMe : jm (x_unords st) j = jm (x_unords s2) j).
+  { subst st. nrm. apply jm_upd_same. intro u. repeat split; reflexivity. }
+  assert (NU : x_next_uid st = x_next_uid s2) by (subst st; nrm; auto).
+  assert (TK : x_parse_token st = x_parse_token s2) by (subst st; nrm; auto).
+  assert (NP : nparse st = nparse s2) by (subst st; unfold nparse; nrm; auto).
+  assert (HD : x_head_offs st = x_head_offs s2) by (subst st; nrm; auto).
+  assert (US : x_unords st = upd_unord id (u_set_end cur) (x_unords s2)) by (subst st; nrm; auto).
+  clearbody st.
+  destruct (rv =? MORE) eqn:RV.
+  - rewrite CR in H. cbn [andb] in H. destruct (d_off cur <? x_head_offs st) eqn:SL.
+    + inversion H; subst st'. eapply inv_view; [apply view_give_unit|].
+      destruct (c_stale_drops_link cfg); auto. exact (proj1 (inv_drop_link (r_link j) st I3)).
+    + inversion H; subst st'. clear H. apply N.eqb_eq in RV. specialize (Hn RV).
+      apply inv_requeue; auto.
+      * unfold job_ok; simpl. rewrite NU. split; [lia|]. split; [auto|]. split; [auto|]. split; [auto|].
+        intros id2 u E Hu Hid. rewrite EL in E. inversion E; subst id2. rewrite US in Hu.
+        unfold upd_unord in Hu. apply in_map_iff in Hu. destruct Hu as (u0 & <- & Hin0).
+        destruct (u_id u0 =? id) eqn:K.
+        -- apply N.eqb_eq in K. simpl. split; [apply UO; auto|auto].
+        -- exfalso. apply N.eqb_neq in K. congruence.
+      * simpl. lia.
+      * simpl. intros id2 E. rewrite EL in E. inversion E; subst id2. exact Z3.
+      * simpl. change (jm (x_unords st) (mkrjob (r_base j) cur (r_link j))) with (jm (x_unords st) j).
+        rewrite JMe, TK, NP, M3. exact B2.
+  - inversion H; subst st'. clear H. eapply inv_view; [apply view_add_run; auto|].
+    apply (inv_upd_spec id (fun u => u_set_complete (u_set_end cur u)) st I3 Z3).
+    + intro u. split; reflexivity.
+    + intros u Hu Hid. rewrite US in Hu. unfold upd_unord in Hu. apply in_map_iff in Hu. destruct Hu as (u0 & <- & Hin0).
+      assert (K : u_id u0 = id) by (destruct (u_id u0 =? id); simpl in Hid; auto).
+      destruct (UO u0 Hin0 K) as ((O1 & O2 & O3) & B). replace (u_id u0 =? id) with true by lia.
+      unfold unord_ok, u_set_complete, u_set_end; simpl.
+      split; [intro Q; destruct (O1 Q) as (_ & _ & L); repeat split; auto; rewrite B; lia|split; auto].
+Qed.
+
 Lemma inv_retr1 cfg j att rv cur st st' : cfg_safe cfg -> inv st -> retr1 cfg j att rv cur st = Some st' -> inv st'.
 Proof.
   intros (CS & CJ & CR) I H. unfold retr1 in H.
@@ -250,8 +311,8 @@ Proof.
   set (s2 := detach att s1) in *. clearbody s2. clear s1.
   bool_hyps.
   assert (Hok : dbs_ok cur = true) by assumption.
-  assert (Hbit : d_bit (r_cur j) <= d_bit cur) by lia.
-  assert (Hoff : d_off (r_cur j) <= d_off cur) by lia.
+  assert (Hbit : d_bit (r_cur j) <= d_bit cur) by (apply N.leb_le; assumption).
+  assert (Hoff : d_off (r_cur j) <= d_off cur) by (apply N.leb_le; assumption).
   destruct F2 as (I2 & J2 & L2 & B2 & M2).
   (* parsing_done *)
   destruct (x_parsing_done s2) eqn:PD.
@@ -261,10 +322,25 @@ Proof.
     destruct (link_state_spec _ _ _ LS) as (id & EL & Hu & Hid). rewrite EL in H. cbn [andb negb orb] in H.
     destruct (u_complete u) eqn:UC; cbn [andb negb orb] in H.
     + destruct (u_legit u) eqn:UL; cbn [andb negb orb] in H.
-      * (* adopted: acts as the master *) admit.
+      * (* adopted: acts as the master *)
+        eapply (retr1_master cfg j (Some id) rv cur s2 st' EL CR); try exact H; auto.
+        -- exact (conj I2 (conj J2 (conj L2 (conj B2 M2)))).
+        -- eapply jm_of_link_state; eauto.
+        -- intro E; subst rv. match goal with K : (if MORE =? MORE then _ else _) = true |- _ => rewrite N.eqb_refl in K end. bool_hyps. auto.
       * inversion H; subst. eapply inv_view; [apply view_give_unit|]. destruct (c_retr_abort_drops_link cfg); auto. exact (proj1 (inv_drop_link (Some (u_id u)) s2 I2)).
-    + (* speculative *) admit.
-  - destruct (r_link j) as [id|] eqn:EL; cbn [andb negb orb] in H.
-    + (* dangling link: treated as speculative, the update is void *) admit.
-    + (* created by the parser: the master *) admit.
-Admitted.
+    + (* speculative *)
+      eapply (retr1_spec cfg j id rv cur s2 st' CR); try exact H; auto.
+      -- exact (conj I2 (conj J2 (conj L2 (conj B2 M2)))).
+      -- intro E; subst rv. match goal with K : (if MORE =? MORE then _ else _) = true |- _ => rewrite N.eqb_refl in K end. bool_hyps. auto.
+  - assert (EL : (exists id, r_link j = Some id) \/ r_link j = None) by (destruct (r_link j); eauto).
+    destruct EL as [[id EL]|EL]; rewrite EL in H; cbn [andb negb orb] in H.
+    + (* dangling link: treated as speculative, the update is void *)
+      eapply (retr1_spec cfg j id rv cur s2 st' CR); try exact H; auto.
+      -- exact (conj I2 (conj J2 (conj L2 (conj B2 M2)))).
+      -- intro E; subst rv. match goal with K : (if MORE =? MORE then _ else _) = true |- _ => rewrite N.eqb_refl in K end. bool_hyps. auto.
+    + (* created by the parser: the master *)
+      eapply (retr1_master cfg j None rv cur s2 st' EL CR); try exact H; auto.
+      -- exact (conj I2 (conj J2 (conj L2 (conj B2 M2)))).
+      -- unfold jm. rewrite EL. reflexivity.
+      -- intro E; subst rv. match goal with K : (if MORE =? MORE then _ else _) = true |- _ => rewrite N.eqb_refl in K end. bool_hyps. auto.
+Qed.
